@@ -467,8 +467,12 @@ def gen_field(rnd, depth, defs, hotness, ext, prop=False):
             sch["minimum"] = rnd.choice([0, 1, -5, 2.5]) if sch["type"] == "number" else rnd.choice([0, 1, -5])
         if rnd.random() < 0.4:
             sch["maximum"] = rnd.choice([10, 100, 7.25]) if sch["type"] == "number" else rnd.choice([10, 100])
+            if rnd.random() < 0.3:
+                sch["exclusiveMaximum"] = True
+        if ext and "minimum" in sch and rnd.random() < 0.25:
+            sch["exclusiveMinimum"] = True
         if prop and rnd.random() < 0.2:
-            sch["default"] = sch.get("minimum", sch.get("maximum", 3))
+            sch["default"] = sch.get("minimum", 3) if not sch.get("exclusiveMaximum") else 3
     elif r < 0.38:
         sch = {"type": "boolean"}
         if prop and rnd.random() < 0.2:
@@ -531,6 +535,8 @@ def gen_field(rnd, depth, defs, hotness, ext, prop=False):
                 sch["default"] = {clean_json_str(gen_payload(rnd, hotness)): 0}
         elif ext and rnd.random() < 0.3:
             sch["additionalProperties"] = False
+        if ext and rnd.random() < 0.2:
+            sch[rnd.choice(["minProperties", "maxProperties"])] = rnd.randint(1, 3)
     if ext and rnd.random() < 0.04 and "$ref" not in sch:
         sch["description"] = gen_payload(rnd, hotness)
     return sch
@@ -542,6 +548,11 @@ def clean_json_str(s):
 
 
 def gen_class_schema(rnd, hotness, ext):
+    if ext and rnd.random() < 0.05:
+        # a top-level schema that is not an object (the generator's `wrapped` convention)
+        sch = rnd.choice([{"type": "string", "maxLength": 5}, {"type": "integer", "minimum": 0}, {"enum": ["a", "b", 3]},
+                          {"type": "array", "items": {"type": "integer"}}])
+        return "Gen%d" % rnd.randint(0, 10 ** 6), copy.deepcopy(sch), {}
     defs = {}
     for i in range(rnd.choice([0, 0, 1, 2])):
         dn = "Def%d" % i
@@ -617,7 +628,7 @@ def to_field(sch):
         if set(sch) != {"$ref"} or not sch["$ref"].startswith("#/definitions/"):
             raise Unmodelled("$ref with siblings")
         return ("ref", sch["$ref"][len("#/definitions/"):])
-    known = {"type", "minLength", "maxLength", "pattern", "default", "minimum", "maximum", "enum", "items",
+    known = {"type", "minLength", "maxLength", "pattern", "default", "minimum", "maximum", "exclusiveMaximum", "enum", "items",
              "uniqueItems", "additionalItems", "allOf", "anyOf", "oneOf", "not", "properties", "required",
              "additionalProperties"}
     if set(sch) - known:
@@ -641,9 +652,10 @@ def to_field(sch):
             raise Unmodelled("string keywords")
         return ("string", nums(sch, ["minLength", "maxLength"]), sch.get("pattern"), to_default(sch))
     if t in ("integer", "number"):
-        if set(sch) - {"type", "minimum", "maximum", "default"}:
+        if set(sch) - {"type", "minimum", "maximum", "exclusiveMaximum", "default"}:
             raise Unmodelled("number keywords")
-        return ("numeric", "Integer" if t == "integer" else "Number", nums(sch, ["minimum", "maximum"]), to_default(sch))
+        return ("numeric", "Integer" if t == "integer" else "Number",
+                nums(sch, ["minimum", "maximum", "exclusiveMaximum"]), to_default(sch))
     if t == "boolean":
         if set(sch) - {"type", "default"}:
             raise Unmodelled("boolean keywords")
@@ -921,6 +933,10 @@ def class_spec(name, sch, defs, probe_disc):
 
 
 def top_diff(want, got, out):
+    if want.get("type", "object") != "object" or "properties" not in want:
+        out.append(("C09/back/class/non-object-schema",
+                    "schema %r is generated as a class with a single property 'wrapped' and mapped back as %r" % (want, got)))
+        return
     names = list(want.get("properties", {}))
     collapsed_shape = (len(names) == 1 and set(want.get("required", names)) == set(names)
                        and want.get("additionalProperties") is False)
@@ -1008,6 +1024,8 @@ def exact_field(rnd, depth):
             s["minimum"] = rnd.randint(0, 2)
         if rnd.random() < 0.6:
             s["maximum"] = rnd.randint(3, 5)
+            if rnd.random() < 0.35:
+                s["exclusiveMaximum"] = True
         return s
     if r < 0.45:
         s = {"type": "number"}
@@ -1015,6 +1033,8 @@ def exact_field(rnd, depth):
             s["minimum"] = rnd.choice([0, 0.5])
         if rnd.random() < 0.6:
             s["maximum"] = rnd.choice([3, 2.5])
+            if rnd.random() < 0.35:
+                s["exclusiveMaximum"] = True
         return s
     if r < 0.5:
         return {"type": "boolean"}
@@ -1413,7 +1433,7 @@ def run(rep, tier):
         fails, tag, code = class_spec(name, copy.deepcopy(sch), copy.deepcopy(defs), disc)
         rep.stat("class", "outcome:" + tag)
         shape = tuple(sorted({k.split("/")[1] + "/" + k.split("/")[2] for k, _ in fails})) or ("clean",)
-        rep.count("class", 1, (tag, shape, len(sch["properties"])))
+        rep.count("class", 1, (tag, shape, len(sch.get("properties", {}))))
         for k, w in fails:
             rep.finding(k, w, {"kind": "class", "name": name, "schema": sch, "definitions": defs,
                                "python": class_python(name, sch, defs)})
@@ -1422,7 +1442,15 @@ def run(rep, tier):
         except Unmodelled:
             model = None
             n_unmodelled += 1
-        classes.append((name, sch, defs, model, code, tag, [k for k, _ in fails]))
+        back_req = None
+        if model is not None and tag in ("ok", "differs"):
+            r2 = run_generator(name, copy.deepcopy(sch), copy.deepcopy(defs))
+            x2 = exec_code(r2[1], r2[2]) if r2[0] == "ok" else ("raise",)
+            b2 = back_map(x2[1], name) if x2[0] == "ok" else ("raise",)
+            if b2[0] == "ok" and b2[1].get("type") == "object" and isinstance(b2[1].get("required"), list) \
+                    and set(b2[1].get("properties", {})) == set(sch["properties"]):
+                back_req = b2[1]["required"]
+        classes.append((name, sch, defs, model, code, tag, [k for k, _ in fails], back_req))
     rep.cov["streams"]["class"]["outside_modelled_fragment"] = n_unmodelled
     ex = next((c for c in classes if c[5] == "ok" and c[3] is not None), classes[0])
     rep.sample({"stream": "class", "schema": ex[1], "generated": ex[4]})
@@ -1545,6 +1573,12 @@ def coq_correspondence(rep, probes, lexcases, classes, modules=()):
         body += "Eval vm_compute in (indices_where class_bad_sep cases 0).\n"
         body += "Eval vm_compute in (indices_where class_predicted_ok cases 0).\n"
         body += "Eval vm_compute in (indices_where class_real_relex_ok cases 0).\n"
+        reqs = [(c[3], c[7]) for c in chunk if c[7] is not None]
+        body += "Definition reqcases : list reqcase := %s.\n" % E.lst(
+            ["\n (%s, %s)" % (c_class(m), E.lst([E.pstr(x) for x in br])) for m, br in reqs])
+        body += "Eval vm_compute in (indices_where required_mismatch reqcases 0).\n"
+        body += "Eval vm_compute in (indices_where required_theorem_violated reqcases 0).\n"
+        body += "Eval vm_compute in (length (filter required_hypotheses reqcases), length reqcases).\n"
         shards.append(body)
         kinds.append(("class", s0))
     from harness import c09mod as M
@@ -1573,13 +1607,14 @@ def coq_correspondence(rep, probes, lexcases, classes, modules=()):
     mism = {"probe-emit": [], "probe-lex": [], "probe-theorem": [], "lexer": [], "class": [], "class-sep": [],
             "module": [], "module-names": [], "module-sep": []}
     mod_names_ok, mod_sites_ok, mod_relex_ok = set(), set(), set()
+    req_bad, req_thm_bad, req_hyp = [], [], [0, 0]
     model_ok_probe = set()
     predicted_ok, relex_ok = set(), set()
     bad = None
     bad_kinds = set()
     for (kind, s0), (rc, out, err) in zip(kinds, res):
         vals = core.parse_eval(out)
-        want = {"probe": 4, "lexer": 2, "class": 4, "module": 6}[kind]
+        want = {"probe": 4, "lexer": 2, "class": 7, "module": 6}[kind]
         if rc != 0 or len(vals) != want:
             bad = bad or (kind, s0, (out + err)[-1200:])
             bad_kinds.add(kind)
@@ -1603,6 +1638,12 @@ def coq_correspondence(rep, probes, lexcases, classes, modules=()):
             mism["class-sep"] += [s0 + i for i in core.parse_nat_list(vals[1])]
             predicted_ok |= {s0 + i for i in core.parse_nat_list(vals[2])}
             relex_ok |= {s0 + i for i in core.parse_nat_list(vals[3])}
+            chunk_req = [c for c in modelled[s0:s0 + cper] if c[7] is not None]
+            req_bad += [chunk_req[i] for i in core.parse_nat_list(vals[4])]
+            req_thm_bad += [chunk_req[i] for i in core.parse_nat_list(vals[5])]
+            nums_ = [int(t) for t in re.findall(r"\d+", vals[6])]
+            req_hyp[0] += nums_[0]
+            req_hyp[1] += nums_[1]
     if bad is not None:
         rep.broken("correspondence:coq-eval", "case shard %s@%d failed to evaluate: %s" % bad)
     for k in sorted(bad_kinds):
@@ -1645,6 +1686,12 @@ def coq_correspondence(rep, probes, lexcases, classes, modules=()):
     rep.obligation("correspondence:class-prediction", not cls_bad,
                    "%d classes, %d where model prediction, model read-back of the real source and real compile disagree"
                    % (len(modelled), len(cls_bad)))
+    rep.obligation("correspondence:required-roundtrip", not req_bad,
+                   "%d classes mapped back, %d where structure_to_schema's required differs (as a set) from the model's "
+                   "back_required(final_required)" % (req_hyp[1], len(req_bad)))
+    rep.obligation("instantiated:C09_required_roundtrip", not req_thm_bad,
+                   "%d classes satisfy the hypotheses (every defaulted property listed, no duplicates); %d of them "
+                   "contradict the theorem's conclusion on the implementation" % (req_hyp[0], len(req_thm_bad)))
     # modules: text, name resolution, lexical prediction
     rep.obligation("correspondence:module-source", not mism["module"],
                    "%d modules of the modelled fragment (%d with definitions), %d where the file written by "
@@ -1691,6 +1738,10 @@ def coq_correspondence(rep, probes, lexcases, classes, modules=()):
         idx = mism["class"] or cls_bad or mism["class-sep"]
         c = modelled[idx[0]]
         report("class", idx, {"kind": "class", "name": c[0], "schema": c[1], "definitions": c[2], "generated": c[4]})
+    if req_bad or req_thm_bad:
+        c = (req_bad or req_thm_bad)[0]
+        report("required-roundtrip", req_bad or req_thm_bad,
+               {"kind": "class", "name": c[0], "schema": c[1], "definitions": c[2], "mapped_back_required": c[7]})
     if mism["module"] or mism["module-names"] or mism["module-sep"] or mod_bad:
         idx = mism["module"] or mism["module-names"] or mod_bad or mism["module-sep"]
         m = mmod[idx[0]]
